@@ -114,6 +114,8 @@ def plan_pairs(tier, seed):
 
 def plan_c13(tier, seed):
     p = e1_plan(["split_hold"], [], alpha="full", kinds=("map",))(tier, seed)
+    # values reachable through two-step navigation (find from every view root)
+    p["runs"] += grid(["map"], ["u8", "Ipv4Net"] if tier == "quick" else REP7, ["U2"], ["hi", "lo"], "structural", ["find"])
     q = plan_pairs(tier, seed)
     p["runs"] += q["runs"] + [{"engine": "selfpairs", "ptype": t, "universe": "U2", "embed": e, "threads": 2} for t in (REP7 if tier == "quick" else ALL) for e in ("hi", "lo")]
     p["jobs"] = 6
